@@ -30,6 +30,7 @@ Oracle, per template of the set: ``looked up ⊆ find_undeclared_variables(env.p
 
 Sync and async (driven without an event loop).
 """
+import os
 import random
 import sys
 from typing import List
@@ -105,6 +106,8 @@ MAIN = {
                "{% if undefined_thing is defined %}{{ never }}{% endif %}",
     "t_shadow": "{{ range(2)|list }}{% if c1 %}{% set range = r2 %}{% endif %}{{ range }}{{ dict(a=1) }}{{ namespace }}{{ cycler }}{{ joiner }}{{ lipsum is defined }}"
                 "{% for dict in xs %}{{ dict }}{% endfor %}{{ dict }}",
+    "t_autoescape": "{% autoescape ae %}{{ av }}{% if c1 %}{% set asv = 1 %}{% endif %}{{ asv }}{% for x in xs %}{% if c2 %}{% set lv = x %}{% endif %}{{ lv }}"
+                    "{% endfor %}{% endautoescape %}{{ asv }}",
     "t_selfblocks": "{{ self.b() }}{% block b %}{{ bb }}{% if c1 %}{{ self.c() }}{% endif %}{% endblock %}{% if c2 %}{% block c %}{{ cc }}{% endblock %}{% endif %}",
     "t_inc_const": "{% include 'h_inc' %}{% if c1 %}{% include 'h_inc2' without context %}{% endif %}{% include 'h_missing' ignore missing %}"
                    "{% set it = 5 %}{% include 'h_inc' %}",
@@ -239,9 +242,9 @@ def _build_gen(n, seed):
     return out
 
 
-GEN = _build_gen(NGEN_THOROUGH, 0)
+GEN = {}
+GEN_SEED = [None]
 SOURCES.update(GEN_HELPERS)
-SOURCES.update(GEN)
 
 # ------------------------------------------------------------------------------------------------ recording
 LOOKUPS = []
@@ -297,20 +300,37 @@ REFS = {}
 PARSE_ERRORS = {}
 
 
-def _build():
+def _build(seed):
+    """(Re)build the template set for a generator seed: parse, analyse and compile everything natively."""
+    if GEN_SEED[0] == seed:
+        return
+    for name in GEN:
+        del SOURCES[name]
+    GEN.clear()
+    GEN.update(_build_gen(NGEN_THOROUGH, seed))
+    SOURCES.update(GEN)
+    GEN_SEED[0] = seed
+    del LOADED[:]
     for asyncm in (False, True):
         env = RecEnvironment(loader=FunctionLoader(_load), enable_async=asyncm, cache_size=-1, finalize=_blank)
         ENVS[asyncm] = env
         TPLS[asyncm] = {name: env.get_template(name) for name in SOURCES}  # compiled natively, once
+    LOADABLE.clear()
+    LOADABLE.update(LOADED)  # what the recording loader could serve
     env = ENVS[False]
+    UNDECL.clear()
+    REFS.clear()
     for name, src in SOURCES.items():
         ast = env.parse(src)
         UNDECL[name] = set(meta.find_undeclared_variables(ast))
         REFS[name] = list(meta.find_referenced_templates(ast))
+    GLOBAL_KEYS.clear()
+    GLOBAL_KEYS.update(env.globals)
 
 
-_build()
-GLOBAL_KEYS = set(ENVS[False].globals)
+LOADABLE = set()
+GLOBAL_KEYS = set()
+_build(int(os.environ.get("VERIF_SEED", "0") or 0))
 
 P = {}
 
@@ -318,6 +338,7 @@ P = {}
 def setup(param):
     P.clear()
     P.update(param or {})
+    _build(P.get("seed", 0))
     del LOOKUPS[:], REQUESTS[:]
 
 
@@ -329,7 +350,7 @@ def covered():
         if key not in UNDECL[tpl] and key not in GLOBAL_KEYS:
             return False
     for parent, name in REQUESTS:
-        if name in SOURCES and parent in REFS:
+        if name in LOADABLE and parent in REFS:
             refs = REFS[parent]
             if name not in refs and None not in refs:
                 return False
@@ -389,13 +410,14 @@ def gen_ok(k1: bool, k2: bool, k3: bool, k4: bool, l1: List[int], l2: List[int],
 
 
 def conditions(tier, seed):
+    _build(seed)
     thorough = tier == "thorough"
     to = 300 if thorough else 45
     maxx = 3 if thorough else 2
     out = []
     for tname in MAIN:
         for asyncm in (False, True):
-            p = dict(tpl=tname, asyncm=asyncm, maxx=maxx)
+            p = dict(tpl=tname, asyncm=asyncm, maxx=maxx, seed=seed)
             out.append(Cond(f"skel[{tname},{'async' if asyncm else 'sync'}]", "skel_ok", mode="A", param=p, timeout=to,
                             witnesses=[[True, False, True, [1, 2], 5, 0, 0, 1], [False, True, False, [], -1, 3, 3, 2], [False, False, True, [4], 0, 9, 2, 3],
                                        [True, True, True, [3, 1], 2, 2, 1, 0]],
@@ -405,7 +427,7 @@ def conditions(tier, seed):
         tname = "g%03d" % i
         asyncm = bool(i % 2) if not thorough else None
         for am in ((False, True) if thorough else (asyncm,)):
-            p = dict(tpl=tname, asyncm=am, maxx=2)
+            p = dict(tpl=tname, asyncm=am, maxx=2, seed=seed)
             out.append(Cond(f"gen[{tname},{'async' if am else 'sync'}]", "gen_ok", mode="A", param=p, timeout=to,
                             witnesses=[[True, False, True, False, [1, 2], [3], 1, 0], [False, True, False, True, [], [], 0, 2], [True, True, True, True, [5], [0], 9, 1]],
                             bounds="any k1..k4; L1: <= 2 arbitrary ints, L2: <= 1; any int lim; dynamic name selector over 3 names; "
